@@ -671,3 +671,256 @@ func DisNestFamily(full bool) []DisNestParams {
 	}
 	return out
 }
+
+// ---------------------------------------------------------------------------
+// File-flow family (C04, C14, C13)
+
+type FileParams struct {
+	Out      string // f g fs fm s ss ms sp um d
+	Proj     string // "" | f
+	Prod     string // filew | splitw
+	ProdWrap bool
+	ConsWrap bool
+	ConsMap  bool
+	ProdMap  bool
+	Late     bool
+	Vol      string // "" | call | strict | false
+	Retain   string // "" | stage | pipe
+	TopOut   bool
+	Mode     string // rolling | post | strict
+	Size     int
+}
+
+func (d FileParams) String() string {
+	return fmt.Sprintf("files{out=%s proj=%q prod=%s prodwrap=%v conswrap=%v consmap=%v prodmap=%v late=%v vol=%q retain=%q topout=%v mode=%s size=%d}",
+		d.Out, d.Proj, d.Prod, d.ProdWrap, d.ConsWrap, d.ConsMap, d.ProdMap, d.Late, d.Vol, d.Retain, d.TopOut, d.Mode, d.Size)
+}
+
+func filewOuts() []Param {
+	txt := FiletypeT("txt")
+	fs := StructT("FS")
+	return []Param{{T: txt, Name: "f"}, {T: FileT, Name: "g"}, {T: ArrayOf(txt), Name: "fs"}, {T: TMapOf(txt), Name: "fm"},
+		{T: fs, Name: "s"}, {T: ArrayOf(fs), Name: "ss"}, {T: TMapOf(fs), Name: "ms"},
+		{T: StringT, Name: "sp"}, {T: MapT, Name: "um"}, {T: PathT, Name: "d"}}
+}
+
+func filerStage(p *Program, t *T) *Stage {
+	name := "FILER_" + t.Mangle()
+	if s := p.Stage(name); s != nil {
+		return s
+	}
+	s := &Stage{Name: name, Fn: "FILER", Ins: []Param{{T: t, Name: "x"}, {T: IntT, Name: "after"}},
+		Outs: []Param{{T: IntT, Name: "seen"}}}
+	p.Stages = append(p.Stages, s)
+	return s
+}
+
+// FileFlow builds the program for d (nil if inexpressible).
+func FileFlow(d FileParams) *Program {
+	p := baseProgram()
+	p.Desc = d.String()
+	p.Structs = append(p.Structs, &StructDecl{Name: "FS", Fields: []Param{{T: IntT, Name: "x"}, {T: FiletypeT("txt"), Name: "f"}}})
+	size := int64(d.Size)
+	if size == 0 {
+		size = 2
+	}
+	var prod *Stage
+	var outT *T
+	switch d.Prod {
+	case "filew", "":
+		prod = &Stage{Name: "FILEW", Fn: "FILEW", Ins: []Param{{T: IntT, Name: "n"}}, Outs: filewOuts()}
+		for _, o := range prod.Outs {
+			if o.Name == d.Out {
+				outT = o.T
+			}
+		}
+	case "splitw":
+		if d.Out != "f" {
+			return nil
+		}
+		txt := FiletypeT("txt")
+		prod = &Stage{Name: "SPLITW", Fn: "SPLITW", Split: true, Ins: []Param{{T: IntT, Name: "n"}},
+			Outs: []Param{{T: txt, Name: "f"}}, ChunkIns: []Param{{T: IntT, Name: "i"}}, ChunkOuts: []Param{{T: txt, Name: "cf"}}}
+		outT = txt
+	default:
+		return nil
+	}
+	if outT == nil {
+		return nil
+	}
+	switch d.Vol {
+	case "strict", "false":
+		prod.Volatile = d.Vol
+	case "", "call":
+	default:
+		return nil
+	}
+	if d.Retain == "stage" {
+		prod.Retain = []string{d.Out}
+	}
+	p.Stages = append(p.Stages, prod)
+	var path []string
+	if d.Proj != "" {
+		path = strings.Split(d.Proj, ".")
+	}
+	valT, ok := projType(p, outT, path)
+	if !ok {
+		return nil
+	}
+	if d.ProdMap {
+		valT = ArrayOf(valT)
+		if !valT.Valid() {
+			return nil
+		}
+	}
+	consT := valT
+	if d.ConsMap {
+		switch valT.K {
+		case TArray, TTMap:
+			consT = valT.Elem
+		default:
+			return nil
+		}
+	}
+	cons := filerStage(p, consT)
+	top := &Pipeline{Name: "TOP", Ins: []Param{{T: IntT, Name: "n"}}}
+	prodCall := &Call{Callee: prod.Name, Binds: []Bind{{"n", Self("n")}}}
+	if d.Vol == "call" {
+		prodCall.Volatile = "true"
+	}
+	if d.ProdMap {
+		prodCall.Map = true
+		prodCall.Binds = []Bind{{"n", SplitE(Lit(Arr(Int(size), Int(size+1))))}}
+	}
+	var srcE *Exp
+	pth := strings.Trim(d.Out+"."+d.Proj, ".")
+	if d.ProdWrap {
+		pw := &Pipeline{Name: "PW", Ins: []Param{{T: IntT, Name: "n"}},
+			Outs: []Param{{T: valT, Name: "r"}}, Calls: []*Call{prodCall},
+			Ret: []Bind{{"r", Ref(prod.Name, pth)}}}
+		if d.ProdMap {
+			return nil // keep the mapped producer at top level
+		}
+		if d.Retain == "pipe" {
+			pw.Retain = []*Exp{Ref(prod.Name, d.Out)}
+		}
+		p.Pipelines = append(p.Pipelines, pw)
+		top.Calls = append(top.Calls, &Call{Callee: "PW", Binds: []Bind{{"n", Self("n")}}})
+		srcE = Ref("PW", "r")
+	} else {
+		top.Calls = append(top.Calls, prodCall)
+		srcE = Ref(prod.Name, pth)
+		if d.Retain == "pipe" {
+			top.Retain = []*Exp{Ref(prod.Name, d.Out)}
+		}
+	}
+	// slow chain
+	top.Calls = append(top.Calls,
+		&Call{Callee: "ADD", Alias: "SLOW1", Binds: []Bind{{"a", Self("n")}, {"b", Lit(Int(1))}}},
+		&Call{Callee: "ADD", Alias: "SLOW2", Binds: []Bind{{"a", Ref("SLOW1", "sum")}, {"b", Lit(Int(1))}}})
+	mkCons := func(alias string, after *Exp) (*Call, *T) {
+		arg := srcE
+		if d.ConsMap {
+			arg = SplitE(srcE)
+		}
+		c := &Call{Callee: cons.Name, Alias: alias, Map: d.ConsMap, Binds: []Bind{{"x", arg}, {"after", after}}}
+		rt := IntT
+		if d.ConsMap {
+			if valT.K == TArray {
+				rt = ArrayOf(IntT)
+			} else {
+				rt = TMapOf(IntT)
+			}
+		}
+		return c, rt
+	}
+	if d.ConsWrap {
+		if d.ConsMap {
+			return nil
+		}
+		cw := &Pipeline{Name: "CW", Ins: []Param{{T: valT, Name: "x"}, {T: IntT, Name: "after"}},
+			Outs: []Param{{T: IntT, Name: "seen"}},
+			Calls: []*Call{{Callee: cons.Name, Alias: "C", Binds: []Bind{{"x", Self("x")}, {"after", Self("after")}}}},
+			Ret:   []Bind{{"seen", Ref("C", "seen")}}}
+		p.Pipelines = append(p.Pipelines, cw)
+		top.Calls = append(top.Calls, &Call{Callee: "CW", Alias: "C1", Binds: []Bind{{"x", srcE}, {"after", Self("n")}}})
+		top.Outs = append(top.Outs, Param{T: IntT, Name: "seen1"})
+		top.Ret = append(top.Ret, Bind{"seen1", Ref("C1", "seen")})
+		if d.Late {
+			top.Calls = append(top.Calls, &Call{Callee: "CW", Alias: "C2", Binds: []Bind{{"x", srcE}, {"after", Ref("SLOW2", "sum")}}})
+			top.Outs = append(top.Outs, Param{T: IntT, Name: "seen2"})
+			top.Ret = append(top.Ret, Bind{"seen2", Ref("C2", "seen")})
+		}
+	} else {
+		c1, rt := mkCons("C1", Self("n"))
+		top.Calls = append(top.Calls, c1)
+		top.Outs = append(top.Outs, Param{T: rt, Name: "seen1"})
+		top.Ret = append(top.Ret, Bind{"seen1", Ref("C1", "seen")})
+		if d.Late {
+			c2, rt2 := mkCons("C2", Ref("SLOW2", "sum"))
+			top.Calls = append(top.Calls, c2)
+			top.Outs = append(top.Outs, Param{T: rt2, Name: "seen2"})
+			top.Ret = append(top.Ret, Bind{"seen2", Ref("C2", "seen")})
+		}
+	}
+	top.Outs = append(top.Outs, Param{T: IntT, Name: "slow"})
+	top.Ret = append(top.Ret, Bind{"slow", Ref("SLOW2", "sum")})
+	if d.TopOut {
+		top.Outs = append(top.Outs, Param{T: valT, Name: "kept"})
+		top.Ret = append(top.Ret, Bind{"kept", srcE})
+	}
+	p.Pipelines = append(p.Pipelines, top)
+	p.Top = &Call{Callee: "TOP", Binds: []Bind{{"n", Lit(Int(size))}}}
+	FixUnused(p)
+	return p
+}
+
+// FileFamily enumerates file-flow programs with at most maxDev dimensions
+// off their base value; the VDR mode and volatile annotation are always
+// fully enumerated.
+func FileFamily(maxDev int) []FileParams {
+	outs := []string{"f", "g", "fs", "fm", "s", "ss", "ms", "sp", "um", "d"}
+	projs := []string{"", "f"}
+	prods := []string{"filew", "splitw"}
+	vols := []string{"call", "", "strict", "false"}
+	retains := []string{"", "stage", "pipe"}
+	modes := []string{"rolling", "post", "strict"}
+	bools := []bool{false, true}
+	var out []FileParams
+	for oi, o := range outs {
+		for pi, pr := range projs {
+			for di, prod := range prods {
+				for _, vol := range vols {
+					for ri, ret := range retains {
+						for _, mode := range modes {
+							for a, pw := range bools {
+								for b, cw := range bools {
+									for c, cm := range bools {
+										for e, pm := range bools {
+											for f, late := range bools {
+												for g, topo := range bools {
+													dev := 0
+													for _, x := range []int{oi, pi, di, ri, a, b, c, e, f, g} {
+														if x != 0 {
+															dev++
+														}
+													}
+													if dev > maxDev {
+														continue
+													}
+													out = append(out, FileParams{Out: o, Proj: pr, Prod: prod, ProdWrap: pw, ConsWrap: cw,
+														ConsMap: cm, ProdMap: pm, Late: late, Vol: vol, Retain: ret, TopOut: topo, Mode: mode, Size: 2})
+												}
+											}
+										}
+									}
+								}
+							}
+						}
+					}
+				}
+			}
+		}
+	}
+	return out
+}
